@@ -285,8 +285,8 @@ ClassPool == IF GenPool = "small"
              THEN {"INT", "q:x", "q:+", "q:", "zz", "doc", "q:@@", "@badesc"}
              ELSE {"INT", "q:x", "q:+", "q:", "zz", "doc", "q:@@", "@badesc", "k:+", "q:<<=", "b:+", "SPACE",
                    "QSTRING", "@mbchar", "r2", "c:200"}
-OtherPool == IF GenPool = "small" THEN {"INT"} ELSE {"INT", "doc", "q:"}
-RefPool   == IF GenPool = "small" THEN {"doc", "r2", "INT", "zz"} ELSE {"doc", "r2", "INT", "zz", "q:x", "q:", "@badesc"}
+OtherPool == IF GenPool = "small" THEN {"INT"} ELSE {"INT", "doc"}
+RefPool   == IF GenPool = "small" THEN {"doc", "r2", "INT", "zz"} ELSE {"doc", "r2", "INT", "zz", "q:"}
 
 Holes(sh) == { HoleNo(sh[i]) : i \in { j \in 1..Len(sh) : sh[j] \in HoleNames } }
 \* fills of the holes hs: all holes over Pool, and one hole swept over Sweep with the others over Others
@@ -296,7 +296,9 @@ FillsOf(sh, Sweep, Others, Pool) ==
 
 GenShapes == IF GenRules = 1 THEN Shapes1 ELSE Shapes2
 \* two-rule sources are swept over all atoms only with the full pool
-GenSweep  == IF GenRules = 1 \/ GenPool = "full" THEN SweepAtoms ELSE {}
+GenSweep  == IF GenRules = 1 THEN SweepAtoms
+             ELSE IF GenPool = "full" THEN BytesOf("c:", 0..255) \cup BytesOf("s:", 0..255) \cup TokNames \cup UndefNames \cup BadAtoms
+             ELSE {}
 
 \* ---- the documented verdict on a source -------------------------------------------------
 RECURSIVE SplitNL(_)
